@@ -93,6 +93,9 @@ EXC_BASES = {
     "PicklingError": ("Exception",),
     "Empty": ("Exception",),
     "NotImplementedError": ("RuntimeError",),
+    "NameError": ("Exception",),
+    "UnboundLocalError": ("NameError",),
+    "OverflowError": ("ArithmeticError",),
 }
 
 
@@ -287,15 +290,19 @@ class SuperProxy:
 
 
 class Env:
-    def __init__(self, parent=None):
+    def __init__(self, parent=None, declared=frozenset()):
         self.vars: dict = {}
         self.parent = parent
+        self.declared = declared  # names the function binds somewhere in its body (its locals)
 
     def lookup(self, name):
         e = self
         while e is not None:
             if name in e.vars:
                 return e.vars[name]
+            if name in e.declared:
+                # a local of the function that is not bound on this path
+                raise PyRaise("UnboundLocalError", None, ExcObj(ExcClass("UnboundLocalError")))
             e = e.parent
         raise Unsupported(f"unbound name {name}")
 
@@ -359,7 +366,21 @@ class Interp:
 
     def _call_closure(self, fn: Closure, args, kwargs):
         node = fn.node
-        env = Env(fn.env)
+        if getattr(fn, "declared", None) is None:
+            decl = set()
+            if not isinstance(node, ast.Lambda):
+                for n in _walk_own(node):
+                    if isinstance(n, ast.Name) and isinstance(n.ctx, ast.Store):
+                        decl.add(n.id)
+                    elif isinstance(n, ast.ExceptHandler) and n.name:
+                        decl.add(n.name)
+                    elif isinstance(n, (ast.FunctionDef, ast.ClassDef)):
+                        decl.add(n.name)
+                for n in _walk_own(node):
+                    if isinstance(n, (ast.Global, ast.Nonlocal)):
+                        decl -= set(n.names)
+            fn.declared = frozenset(decl)
+        env = Env(fn.env, fn.declared)
         a = node.args
         params = [p.arg for p in a.posonlyargs + a.args]
         defaults = [None] * (len(params) - len(a.defaults)) + list(a.defaults)
@@ -667,6 +688,9 @@ class Interp:
                                 self.run(h.body, env)
                             finally:
                                 self._handling = prev
+                                if h.name:
+                                    # `except E as name` deletes the name when the handler is left
+                                    env.vars.pop(h.name, None)
                             break
                     else:
                         raise
